@@ -21,7 +21,7 @@ def run(chk):
     ]
     quick = chk.tier == "quick"
     stats = []
-    lines = chk.gen_js("sha", chk.seed, 1500 if quick else 30000)
+    lines = chk.gen_js("sha", chk.seed, 4000 if quick else 30000)
     stats.append(vcheck.corr_pass(chk, "sha", lines, "sha-writes(random)", engine="js", nontrivial=lambda r, i: True))
     lines = chk.gen_js("sha", 0, 0, "exhaustive", 70 if quick else 200)
     stats.append(vcheck.corr_pass(chk, "sha", lines, "sha-writes(all 2-chunk splits)", engine="js", nontrivial=lambda r, i: True))
@@ -38,7 +38,7 @@ def run(chk):
         return memo["n"]
     km = vcheck.known_by_hyp(chk, {"NoNewBinderOnCycle": "D101b"})
     stats.append(vcheck.corr_pass(chk, "h256", vcheck.corpus_lines("C13"), "runtype-pairs(corpus)", engine="js", oracle_filter=c13_only, nontrivial=differs, search=deeper, known_matcher=km))
-    lines = chk.gen_js("h256", chk.seed, 1500 if quick else 40000)
+    lines = chk.gen_js("h256", chk.seed, 4000 if quick else 40000)
     stats.append(vcheck.corr_pass(chk, "h256", lines, "runtype-pairs", engine="js", oracle_filter=c13_only, nontrivial=differs, search=deeper, known_matcher=km))
     if not (ok and aok):
         found = any(not s.endswith("no-failing-input-found") for _, s in chk.violations)
